@@ -1535,8 +1535,14 @@ func shortVal(s string) string {
 	return s
 }
 
+// cmSolverSlots bounds the number of solver processes that concurrency-mode queries of one gosym
+// process run at the same time (each can take several GB on the larger encodings).
+var cmSolverSlots = make(chan struct{}, 10)
+
 // runSolverFile runs one solver process on a script file.
 func runSolverFile(solver, file string, timeoutS int) string {
+	cmSolverSlots <- struct{}{}
+	defer func() { <-cmSolverSlots }()
 	if timeoutS <= 0 {
 		timeoutS = 600
 	}
